@@ -48,13 +48,13 @@ Proof.
   - inversion E; subst. auto.
 Qed.
 
-Definition is_cse (e : event) : bool := match e with EHitCSE _ _ => true | _ => false end.
+Definition is_cse (e : event) : bool := match e with EHitCSE _ _ | EHitCSEC _ _ => true | _ => false end.
 
 Lemma Inv2_step : forall R s e, is_cse e = false -> Inv2 s -> Inv2 (step_event (mixed R) s e).
 Proof.
   intros R s e He (Hg & Hp & Hj).
   assert (Hinv : Inv2 s) by (split; [exact Hg|split; [exact Hp|exact Hj]]).
-  destruct e as [rg|v pl|t a r kids pl|t a|j full|roots]; cbn [step_event]; try discriminate.
+  destruct e as [rg|v pl|t a r kids pl|t a|j full|roots|t a|j full]; cbn [step_event]; try discriminate.
   - split; [|split; [reflexivity|intros c S []]].
     destruct Hg as [H1 H2]. split; [exact H1|]. unfold vis. simpl. rewrite db_app_db0_l. exact H1.
   - destruct (negb (alive s)); [exact Hinv|].
@@ -124,6 +124,14 @@ Proof.
     assert (Hg1 : good s1) by (eapply good_same_subs; [exact A1|exact A2|apply good_rollback; exact Hg]).
     split; [apply good_commit; exact Hg1|]. split; [reflexivity|].
     intros c S Hin. simpl in Hin. rewrite A3 in Hin. simpl. rewrite A4. apply Hj. exact Hin.
+  - destruct (negb (alive s)); [exact Hinv|]. simpl c_own.
+    destruct (get_call_node true (vis s) t a (reg s)) as [c|] eqn:Eg; [|exact Hinv].
+    apply get_call_node_In in Eg. destruct Eg as (_ & _ & _ & Hc).
+    destruct Hg as [Hg1 Hg2]. destruct (current_sound _ _ _ Hg2 Hc) as [Hr Hrows].
+    split; [split; assumption|]. split; [exact Hp|].
+    apply jobs_ok2_add; [exact Hj| |exact Hr].
+    intros x Hx. unfold hit_subtree. simpl. right. apply filter_In.
+    split; [apply Hrows; exact Hx|apply memn_In; apply Hr; exact Hx].
 Qed.
 
 Theorem shallow_hit_sound_mixed_nocse : forall R es, forallb (fun e => negb (is_cse e)) es = true ->
@@ -162,4 +170,18 @@ Lemma retry_loses_rows_mixed :
   ok_with_rows (resolve_op (mixed 3) (mkp topc [1; 2]) (s_base (mixed 3)) [FOk; FFail]) topc [] = true /\
   ok_with_args (resolve_op (mixed 3) p_two_args (s_base (mixed 3)) [FOk; FOk; FFail]) (p_call p_two_args) 1 = true /\
   died_clean (resolve_op (mixed 3) p_two_args (s_base (mixed 3)) [FOk; FFail]) (p_call p_two_args) = true.
+Proof. repeat split; vm_compute; reflexivity. Qed.
+
+(** Configuration [guarded]: a replayed job fetches its recorded subtree tasks only if its parent job was not
+    itself served from the cache.  A parent that is a single-reduction hit re-evaluates its children and records
+    a NEW call node; its replayed child then contributes only its own task.  History: run 1 records
+    top(1) -> [mid(6) -> leaf(2), side(4)]; side is edited (4 -> 7) and run 2 replays top's body (single
+    reduction), replays mid by ultimate reduction (EHitUltC), runs the new side and records a new call node of
+    top with rows {1, 6, 7}; then leaf is edited (2 -> 3): the shallow lookup of top still hits. *)
+Definition h_guarded : list event :=
+  [ENewExec [1; 2; 4; 6]; ERecord 2 [10] 20 [] []; ERecord 6 [10] 20 [0] []; ERecord 4 [10] 30 [] [];
+   ERecord 1 [10] 40 [1; 2] [];
+   ENewExec [1; 2; 7; 6]; EHitUltC 6 [10]; ERecord 7 [10] 31 [] []; ERecord 1 [10] 41 [0; 1] []].
+Lemma w_guarded : stale (guarded 3) h_guarded 1 [10] [1; 3; 7; 6] = true /\ stale (mixed 3) h_guarded 1 [10] [1; 3; 7; 6] = false /\
+  stale (fixed 3) h_guarded 1 [10] [1; 3; 7; 6] = false.
 Proof. repeat split; vm_compute; reflexivity. Qed.
